@@ -39,6 +39,20 @@ void harness(void) {
         total += elen;
     }
     VERIF_ASSERT(pos == n && total == IN.len, "emitted copy elements cover exactly the match length");
+#elif MODE == 3
+    /* literal HEADERS for long literals: every length in [LLO, LHI] (the 1-, 2-, 3- and 4-byte length forms switch at 60, 256, 65536 and
+       2^24 bytes); the literal bytes themselves are an arbitrary heap object, only the header and the end pointer are judged */
+    VERIF_ASSUME(IN.len >= LLO && IN.len <= LHI);
+    uint8_t* lit = malloc(IN.len); uint8_t* out = malloc((size_t)IN.len + 8);
+    VERIF_NOTNULL(lit); VERIF_NOTNULL(out);
+    uint8_t* end = snappy_emit_literal(out, lit, IN.len);
+    uint8_t tag = out[0]; size_t hdr = 1; uint32_t l = 0; unsigned form = tag >> 2;
+    VERIF_ASSERT((tag & 3) == 0, "literal tag");
+    if (form < 60) l = form + 1;
+    else { unsigned nb = form - 59; hdr = 1 + nb; for (unsigned k = 0; k < nb; k++) l |= (uint32_t)out[1 + k] << (8 * k); l += 1; }
+    VERIF_ASSERT(l == IN.len, "literal header decodes to the literal length (format: stored value is length - 1, little endian)");
+    VERIF_ASSERT((size_t)(end - out) == hdr + IN.len, "end pointer == header + literal bytes");
+    free(lit); free(out);
 #else
     VERIF_ASSUME(IN.len >= 1 && IN.len <= 70);
     uint8_t out[80];
